@@ -271,3 +271,28 @@ def r6(cx):
                     dis.append(i)
         cx.check(bool(dis) and all(b.set_dominates(dis, x) for x in oks), "the release-on-failure guard (%s) is disarmed before Core::new returns Ok" % ty.split("::")[-1], "open-guard-not-disarmed", b.where(bb_),
                  "the guard that releases the lock on a failed open is still armed when Core::new succeeds: a successful open would unlock the directory")
+
+
+@rule("C19", "C19.R7", "Tree::new: a failure after Core::new succeeded closes what was opened")
+def r7(cx):
+    """Once Core::new has returned Ok the store is open: the directory is locked and the background tasks hold
+    Arc<CoreInner>.  A later failing step of Tree::new (the directory fsync) that just returns the error drops the `Core`
+    value, which has no destructor: nothing ever releases the lock.  Decided: every error exit after the successful
+    Core::new passes an explicit release or the drop of a value whose own Drop closes the store (a `Tree`)."""
+    f = cx.f
+    b = f.body("Tree::new")
+    acq = sites(cx, b, "Core::new")
+    re_ = result_edges(b, acq[0])
+    if not re_:
+        raise AnchorMissing("Tree::new: result of Core::new is not branched on")
+    okb, errb = re_
+    rel = {c.bb for c in b.calls if c.bb in b.live and (c.names & {"LockFile::release", "Core::close"} or f.call_must_reach(c, {"LockFile::release"})) and not c.names & {"Core::new"}}
+    for bb_, pl, ty, di in b.drops:
+        if bb_ in b.live and not ty.startswith("std::sync::Arc<") and "ControlFlow" not in ty and _own_drop_releases(f, ty, di):
+            rel.add(bb_)
+    errs = [x for x, k in exits(b) if k == "err"]
+    r = b.reachable_from(okb, avoid=rel)
+    bad = sorted(x for x in errs if x in r and x not in rel and any(t in b.reachable_from([x], avoid=rel) for t in b.rets))
+    cx.check(not bad, "every failing exit of Tree::new after Core::new succeeded closes the store (%d release points)" % len(rel), "failed-open-keeps-lock|Tree::new", b.where(bad[0]) if bad else b.where(),
+             "Tree::new can return Err after Core::new opened the store (lock taken, background tasks running) by merely dropping the `Core` value, which has no destructor: "
+             "the directory stays locked for the life of the process although no store is open on it")
